@@ -238,6 +238,30 @@ func runC18(c *Case, out func(string)) {
 					}
 				}
 			}
+			// the adapter the engine reads a memtable through: seek-to-last stands on the NEWEST
+			// version of the greatest key, seek-to-first on the newest version of the smallest
+			if len(want) > 0 {
+				ad := memtable.NewIteratorAdapter(mt.NewIterator())
+				ad.SeekToLast()
+				var exp mver
+				for _, w := range want {
+					if bytes.Equal(w.k, want[len(want)-1].k) {
+						exp = w
+						break
+					}
+				}
+				if !ad.Valid() {
+					fail("adapter: seek-to-last is invalid on a table with entries")
+				} else if g := verStr(ad.Key(), ad.SequenceNumber(), ad.IsTombstone(), ad.Value()); g != verStr(exp.k, exp.seq, exp.del, exp.v) {
+					fail(fmt.Sprintf("adapter: seek-to-last stands on %s, expected the newest version of the greatest key %s", g, verStr(exp.k, exp.seq, exp.del, exp.v)))
+				}
+				ad.SeekToFirst()
+				if !ad.Valid() {
+					fail("adapter: seek-to-first is invalid on a table with entries")
+				} else if g := verStr(ad.Key(), ad.SequenceNumber(), ad.IsTombstone(), ad.Value()); g != verStr(want[0].k, want[0].seq, want[0].del, want[0].v) {
+					fail(fmt.Sprintf("adapter: seek-to-first stands on %s, expected %s", g, verStr(want[0].k, want[0].seq, want[0].del, want[0].v)))
+				}
+			}
 		case "seek":
 			t := tok(l[1])
 			it := mt.NewIterator()
